@@ -67,10 +67,13 @@ func scenario(s shape, target string, q, t vrt.Bounds) *vrt.Scenario {
 		evFrom  int
 		tookVT  time.Duration
 		setupOK bool
+		// the creation failed with a deployment timeout although the simulator reported every task
+		// TASK_RUNNING right after the launch (no launch fault in force): one defect, one signature
+		deployRace string
 	)
 	seq := []string{"DEPLOY", "CONFIGURE", "START", "STOP", "RESET", "CONFIGURE2"}
 	body := func() {
-		assign, reached, setupOK, gotErr, gotSt, finalSt = nil, false, true, nil, "", ""
+		assign, reached, setupOK, gotErr, gotSt, finalSt, deployRace = nil, false, true, nil, "", "", ""
 		alpha := msgOutcomes
 		if target == "DEPLOY" {
 			alpha = launchOutcomes
@@ -109,6 +112,15 @@ func scenario(s shape, target string, q, t vrt.Bounds) *vrt.Scenario {
 					continue
 				}
 				id, st, err = w.Create(wfName(s), nil)
+				if err != nil && strings.Contains(err.Error(), "workflow deployment timed out") {
+					launchFault := false
+					for _, a := range assign {
+						launchFault = launchFault || (target == "DEPLOY" && a != coresim.OK)
+					}
+					if !launchFault {
+						deployRace = err.Error()
+					}
+				}
 			} else {
 				st, err = w.Control(id, opOf[ph])
 			}
@@ -135,6 +147,9 @@ func scenario(s shape, target string, q, t vrt.Bounds) *vrt.Scenario {
 		vrt.Logf("%s %s assign=%v -> err=%v state=%s final=%s vt=%v", s.name, target, as, gotErr != nil, gotSt, finalSt, tookVT.Round(time.Second))
 	}
 	check := func(x *vrt.Exec) (out []vrt.Violation) {
+		if deployRace != "" {
+			return []vrt.Violation{{Clause: "deploy-timed-out-although-every-task-reported-running", Detail: fmt.Sprintf("shape=%s: every launched task was reported TASK_RUNNING by the master at once, yet: %s", s.name, deployRace)}}
+		}
 		if !setupOK {
 			return []vrt.Violation{{Clause: "setup-step-failed:" + target, Detail: strings.Join(x.Log, "\n")}}
 		}
